@@ -48,7 +48,7 @@ def build_cases(rng, n_desc, gen_kwargs=None, values_per_stream=(2, 2, 1), decod
     for i in range(n_desc):
         g = cc.Gen(rng, **(gen_kwargs or {}))
         is_resp = rng.random() < 0.3
-        ps = g.params(0, response=is_resp)
+        ps = g.permuted_params() if rng.random() < 0.12 else g.params(0, response=is_resp)
         descs.append((ps, is_resp, g))
     # load in batches of documents (one document per description keeps failures isolated)
     for i, (ps, is_resp, g) in enumerate(descs):
@@ -160,3 +160,42 @@ def norm_dec(m):
     if m[:2] == [-1, 5]:
         return [-1, 5]
     return m
+
+
+def atomic_sweep_cases(rng, quick=True):
+    """one VALUE parameter per (base type, encoding, bit length, byte order, bit position); values centred on the
+    representability bounds (all values for small bit lengths).  All requests live in one document."""
+    combos = []
+    bls = [1, 2, 3, 4, 5, 7, 8, 9, 12, 16, 31, 32, 33, 63, 64] if quick else list(range(1, 17)) + [23, 24, 31, 32, 33, 40, 63, 64]
+    for bt, en in [(cc.BUINT, None), (cc.BUINT, 0), (cc.BUINT, 1), (cc.BUINT, 2), (cc.BINT, None), (cc.BINT, 4),
+                   (cc.BINT, 3), (cc.BINT, 5)]:
+        for bl in bls:
+            if bt == cc.BINT and bl < 2:
+                continue
+            for hl in (True, False):
+                for bp in ((0, 3) if quick else (0, 1, 3, 7)):
+                    combos.append((bt, en, bl, hl, bp))
+    msgs = []
+    for i, (bt, en, bl, hl, bp) in enumerate(combos):
+        ps = [cc.param("p1", dict(k="value", dop=cc.simple(cc.std(bt, bl, en, hl)), dflt=None), None, bp or None)]
+        msgs.append((f"a{i}", ps, False))
+    objs = cc.load_messages(msgs)
+    cases = []
+    for (name, ps, _), (bt, en, bl, hl, bp) in zip(msgs, combos):
+        c = Case(ps, False, name)
+        c.obj = objs[name]
+        if bt == cc.BUINT:
+            hi = 10 ** (bl // 4) - 1 if en == 1 else (10 ** (bl // 8) - 1 if en == 2 else (1 << bl) - 1)
+            lo = 0
+        else:
+            hi = (1 << (bl - 1)) - 1
+            lo = -hi - (1 if en in (None, 4) else 0)
+        if bl <= (5 if quick else 8):
+            vals = list(range(lo - 2, hi + 3))
+        else:
+            vals = sorted({lo - 2, lo - 1, lo, lo + 1, -1, 0, 1, hi - 1, hi, hi + 1, hi + 2, (1 << bl) - 1, 1 << bl,
+                           rng.randint(lo, hi)})
+        for v in vals:
+            c.encs.append(dict(value={"p1": v}, req=None, stream="sweep", impl=cc.impl_encode(c.obj, {"p1": v})))
+        cases.append(c)
+    return cases
